@@ -3,7 +3,7 @@
 #   topic PBufReadFrom  parser_buffer.go (*ParserBuffer).ReadFrom        proofs LzProofs/GenPBufReadFrom.lean, GenHPHistRF2.lean
 #   topic BUPParse      bup.go (*bucketParser).Parse, bucket_hash.go     proofs LzProofs/GenBUPParse*.lean
 #
-# For every mutant: copy the repository to <verif>/scratch-repo, apply one small semantic
+# For every mutant: copy the repository to a fresh directory under /tmp, apply one small semantic
 # change, regenerate LzModel/Generated/Code*.lean from the copy into a COPY of the lake
 # project, and build LzProofs.GenHPParse there.
 #   kind proof    : the build must FAIL (the failing theorems are listed)
@@ -21,7 +21,7 @@ REPO="${REPO:-/repo}"
 SCRATCH="$(mktemp -d /tmp/pf-genbup-selftest.XXXXXX)"
 LEAN="$SCRATCH/lean"
 GEN="$LEAN/LzModel/Generated"
-MUT="$HERE/scratch-repo"
+MUT="$(mktemp -d /tmp/pf-mutrepo.XXXXXX)/scratch-repo"   # scratch copies of the library live outside /verif and /repo
 EXTRACT="$SCRATCH/extract"
 TARGETS="${TARGETS:-LzProofs.GenHPHistRF2 LzProofs.GenBUPParse}"
 bad=0; good=0; total=0
